@@ -273,7 +273,7 @@ package server
 //@   at-call io.Copy assert [C16:pipe-peer-to-client] arg0 == stunConn.nextConn && arg1 == tcpConn
 
 //@ func handleConnectionBindRequest
-//@   requires reqWF(req) && stunMsg != nil && req.NonceHash != nil && allocsNonNil(req.AllocationManager) && (forall k :: haskey(req.AllocationManager.allocations, k) ==> tcpConnsWF(valat(req.AllocationManager.allocations, k)))
+//@   requires reqWF(req) && stunMsg != nil && req.NonceHash != nil && allocsNonNil(req.AllocationManager) && (forall k :: haskey(req.AllocationManager.allocations, k) ==> tcpConnsWF(valat(req.AllocationManager.allocations, k)) && valat(req.AllocationManager.allocations, k).log != nil)
 //@   requires typeis(req.Conn, *proto.STUNConn) ==> req.Conn.(*proto.STUNConn).nextConn != nil
 //@   fresh authOK
 //@   at-call buildAndSend assert [C19:correlated] respondsTo(req, stunMsg, arg0, arg1, arg2)
